@@ -182,22 +182,27 @@ def matchstr(c: Cursor, match: Callable[[str, int], int]) -> str | None:
     return c.textstr[i:p]
 
 
-def matchint(c: Cursor) -> int | None:
-    if (s := matchstr(c, match_int)) is not None:
+def _toint(c: Cursor, pos: int, s: str | None) -> int | None:
+    if s is None:
+        return None
+    try:
         return int(s)
-    return None
+    except ValueError:
+        # NOTE: more digits than the interpreter converts (sys.get_int_max_str_digits()): not a match
+        c.goto(pos)
+        return None
+
+
+def matchint(c: Cursor) -> int | None:
+    return _toint(c, c.pos, matchstr(c, match_int))
 
 
 def matchuint(c: Cursor) -> int | None:
-    if (s := matchstr(c, match_uint)) is not None:
-        return int(s)
-    return None
+    return _toint(c, c.pos, matchstr(c, match_uint))
 
 
 def matchsigned(c: Cursor) -> int | None:
-    if (s := matchstr(c, match_int)) is not None:
-        return int(s)
-    return None
+    return _toint(c, c.pos, matchstr(c, match_int))
 
 
 def matchfloat(c: Cursor) -> float | None:
